@@ -47,8 +47,13 @@ func main() {
 	}
 	w := NewWriter(*out, p)
 	if *replay != "" {
-		seg := readSegment(*replay)
-		w.Put(p.Exec(stripObs(seg)))
+		seg := stripObs(readSegment(*replay))
+		out, crash := safeExec(p, seg)
+		if crash != "" {
+			w.crash(seg, crash)
+		} else {
+			w.Put(out)
+		}
 		w.Close()
 		return
 	}
